@@ -203,13 +203,36 @@ def rule_twin(chk):
     # the class list of the generating template equals the classes defined
     tsrc = M.read(CKT)
     import re
-    m = re.search(r'CLASSES\s*=\s*\(([^)]*)\)', tsrc)
-    listed = set(x.strip() for x in m.group(1).replace('\n', ' ').split(',') if x.strip()) if m else set()
-    chk.decide(listed == set(pyk), 'compiled-twin', 'template-class-list', file=CKT, func='CLASSES', line=0,
-               detail_bad='generator template lists %s, kernels.py defines %s' % (sorted(listed), sorted(pyk)), detail_ok='%d classes' % len(listed))
+    listed = None
+    for blk in re.findall(r'<%(.*?)%>', tsrc, flags=re.S):
+        try:
+            bt = ast.parse(__import__('textwrap').dedent(blk))
+        except SyntaxError:
+            continue
+        consts = dict((compact(a_.targets[0]), a_.value) for a_ in ast.walk(bt) if isinstance(a_, ast.Assign) and isinstance(a_.targets[0], ast.Name))
+        v = consts.get('CLASSES')
+        if v is None:
+            continue
+        if isinstance(v, (ast.Tuple, ast.List)) and all(isinstance(e_, (ast.Name, ast.Attribute)) for e_ in v.elts):
+            listed = set(compact(e_).split('.')[-1] for e_ in v.elts)
+        else:
+            # built from a list of names: tuple(getattr(kernels, name) for name in NAMES) / [getattr(kernels, n) for n in NAMES]
+            gen = v.args[0] if isinstance(v, ast.Call) and compact(v.func) in ('tuple', 'list') and len(v.args) == 1 else v
+            if isinstance(gen, (ast.GeneratorExp, ast.ListComp)) and len(gen.generators) == 1 and not gen.generators[0].ifs and isinstance(gen.elt, ast.Call) and compact(gen.elt.func) == 'getattr' \
+                    and len(gen.elt.args) == 2 and compact(gen.elt.args[1]) == compact(gen.generators[0].target):
+                src_ = gen.generators[0].iter
+                src_ = consts.get(compact(src_), src_)
+                if isinstance(src_, (ast.Tuple, ast.List)) and all(isinstance(e_, ast.Constant) and isinstance(e_.value, str) for e_ in src_.elts):
+                    listed = set(e_.value for e_ in src_.elts)
+    if listed is None:
+        chk.undecided('compiled-twin', 'template-class-list', file=CKT, func='CLASSES', line=0, detail='the class list of the generator template is not a literal tuple of classes / of names')
+    else:
+        chk.decide(listed == set(pyk), 'compiled-twin', 'template-class-list', file=CKT, func='CLASSES', line=0,
+                   detail_bad='generator template lists %s, kernels.py defines %s' % (sorted(listed), sorted(pyk)), detail_ok='%d classes' % len(listed))
     gk = M.find_func(py, 'get_compiled_kernel')
-    src = compact(gk)
-    ok = "getattr(c_kernels,kernel.__class__.__name__)" in src and "kernel.__class__.__name__+'Wrapper'" in src and 'cls(**kernel.__dict__)' in src
+    from verif_static import norm as N_
+    rets_ = [r_ for r_ in ast.walk(gk) if isinstance(r_, ast.Return) and r_.value is not None]
+    ok = len(rets_) == 1 and compact(N_.inline(rets_[0].value, N_.local_defs(gk.body))) == "getattr(c_kernels,kernel.__class__.__name__+'Wrapper')(getattr(c_kernels,kernel.__class__.__name__)(**kernel.__dict__))"
     chk.decide(ok, 'compiled-twin', 'get_compiled_kernel', node=gk, file=KER, func='get_compiled_kernel',
                detail_bad='compiled kernel is not <Name>(**kernel.__dict__) wrapped by <Name>Wrapper', detail_ok='Name(**__dict__) in NameWrapper')
     return pyk
@@ -1166,6 +1189,8 @@ def attrs_of(cls, dim):
             if compact(l) in ('dim', 'self.dim') and isinstance(r, ast.Constant):
                 c = r.value
                 return {ast.Eq: dim == c, ast.NotEq: dim != c, ast.Gt: dim > c, ast.GtE: dim >= c, ast.Lt: dim < c, ast.LtE: dim <= c}[op]
+            if compact(l) in ('dim', 'self.dim') and isinstance(r, (ast.Tuple, ast.List, ast.Set)) and all(isinstance(x_, ast.Constant) for x_ in r.elts) and op in (ast.In, ast.NotIn):
+                return (dim in [x_.value for x_ in r.elts]) == (op is ast.In)
         if isinstance(t, ast.BoolOp):
             vals = [truth(v) for v in t.values]
             return all(vals) if isinstance(t.op, ast.And) else any(vals)
